@@ -156,7 +156,7 @@ def event(rows, ids, cid, variant, seed, big=False):
             e["out"]["index"] = [[toks(x) for x in (lab if isinstance(lab, tuple) else (lab,))] for lab in idx]
             e["out"]["columns_ok"] = bool(len(vals.columns) == len(ths) and
                                           all(float(a) == float(b) for a, b in zip(vals.columns, ths)))
-            e["out"]["values"] = [[gamma.proj_rat(x, 5000) for x in row] for row in np.asarray(vals.values, dtype=float)]
+            e["out"]["values"] = [[gamma.proj_rat(x, 5000, ulps=64) for x in row] for row in np.asarray(vals.values, dtype=float)]
             # the markdown rendering (beyond the listed property: EXT clause): one table row per group,
             # the first number of every cell is the reported value to three decimals
             try:
